@@ -75,7 +75,7 @@ func c25Gen(rng *rand.Rand, tier string, w *bufio.Writer) {
 		// two hard errors
 		for t := 0; t < 4; t++ {
 			a := 3 + rng.Intn(maxN-6)
-			fmt.Fprintf(w, "case %d inject write2 %d %d\n", id, a, a+1+rng.Intn(4))
+			fmt.Fprintf(w, "case %d inject write2 %d %d\n", id, a, a+2+rng.Intn(4))
 			for _, l := range all {
 				fmt.Fprintln(w, l)
 			}
